@@ -5,6 +5,7 @@ INVARIANT Inv_C09_ScannerAgrees
 INVARIANT Inv_C09_Idempotent
 INVARIANT Inv_C09_NoUnderscoreLeft
 INVARIANT Inv_C09_OffIsIdentity
+INVARIANT Inv_C09_AlwaysIdentifier
 INVARIANT Emit
 PROPERTY Live_Done
 CHECK_DEADLOCK FALSE
